@@ -319,6 +319,13 @@ func (cachehist) Gen(r *Rng, cfg GenConfig) any {
 	case "C09":
 		failBias = 4
 	}
+	// swarm configuration: every case enables its own subset of the disruptive operation kinds, so
+	// that many histories make long uninterrupted progress (a cache removed every few operations
+	// keeps the system in permanent recovery and explores little)
+	noRm, noCtl, noDelete := r.Chance(1, 2), r.Chance(1, 3), r.Chance(1, 3)
+	if cfg.Prop == "C09" {
+		noCtl = false
+	}
 	for len(c.Ops) < nops {
 		if len(c.Ops) >= macroAt && macroAt >= 0 {
 			macroAt = -1
@@ -326,6 +333,9 @@ func (cachehist) Gen(r *Rng, cfg GenConfig) any {
 			continue
 		}
 		k := r.Intn(20)
+		if (noRm && k >= 16+failBias && k < 19) || (noCtl && k >= 15 && k < 16+failBias) || (noDelete && k == 14) {
+			k = r.Intn(14) // a run or a write instead
+		}
 		switch {
 		case k < 9: // run
 			op := CHOp{Op: "run", Tasks: Shuffled(r, Subset(r, names, 2, 3)), Cwd: Pick(r, chCwds)}
